@@ -84,7 +84,8 @@ CHECKS.update({
    text="Three sub-checks. (a) The simulator is built with -race; batch steps make conflicting operations co-runnable with no harness-made ordering (accept vs connection exit, lookup vs publish, same-user authorizations on several connections, shutdown vs accept) and armed seams yield the processor inside handlers so that one connection overtakes another. (b) A scratch copy of /repo gets a parking point before every statement of the loader (cmd/yieldify); lookups and publications of configuration versions, built so that any mixture of two versions gives an outcome no single version gives, are recorded with event sequence numbers and checked with porcupine against a single-register model. (c) Every published configuration is snapshotted and compared after further loads.",
    note="The race detector reports only races between operations the batches make co-runnable, and its report (unlike the schedule) does not replay deterministically: race replays are attempted up to 8 times. Linearizability checks are capped at 40 operations / 20 s; Unknown is counted as inconclusive.", ref="DESIGN.md 5/C15"),
  "C16": dict(tech=SIM + "; long-lived loader vs fresh loader on the same bytes after every step of a document history with torn/short/stale-tail/empty/garbage file faults; end-to-end reloads through the simulated server",
-   text="Exploration of histories with disk faults: one YAML or JSON loader instance receives generated document histories via Unmarshal and via Load of a file (documents dropping optional keys, shrinking and reordering lists, removing per-user items, unparsable or failing the minimum-content check, torn writes); after each step a fresh loader gets the same bytes; both must fail or publish deeply equal values, and earlier published values must still equal their snapshots. End to end: the reference server reloads documents while clients come and go, XX, ref="DESIGN.md 5/C16"),
+   text="Exploration of histories with disk faults: one YAML or JSON loader instance receives generated document histories via Unmarshal and via Load of a file (documents dropping optional keys, shrinking and reordering lists, removing per-user items, unparsable or failing the minimum-content check, torn writes); after each step a fresh loader gets the same bytes; both must fail or publish deeply equal values, and earlier published values must still equal their snapshots. End to end: the reference server reloads documents while clients come and go, and connections admitted after a reload are judged by the reference model on the new document. Watcher family: the reference server's file watcher runs its real watch loop (started through the verif-tagged StartWithEvents hook) over real files in a private directory; the simulator delivers the change events (configured file, siblings whose names contain its name, swap files, lost events) and advances the simulated clock past the loop's tick; whatever is published must equal a fresh loader's publication for the configured file.",
+   note="The operating system's inotify source is replaced by injected events (hook in /repo, build tag verif); the watch loop, its ticker and the loaders are the real code.", ref="DESIGN.md 5/C16"),
 })
 
 def main():
